@@ -49,10 +49,10 @@ reg(
 
 reg(
     "C08",
-    RULE="(SAN list, commonName, cn flag, host) tuples fed to the real match_hostname / connection._match_hostname and (certificate bytes, pin) pairs fed to assert_fingerprint; names built from the label alphabet {a,b,ab,*,a*,*a,a*b,**,xn--a,xn--*,''}: all single-entry x host pairs up to the stated label counts, strided 4-label pairs, case variants, random 2-3 entry lists, exhaustive small commonName grid, IP spellings typed DNS / IP Address; pins: case change, colon at every position, every single-nibble flip, every truncation, 1-2 nibble extensions, wrong-length digests; a case is non-trivial unless it is the unmodified true pin; distinct = distinct tuples; call histories (accepting call, then rejecting calls that share its host / SAN list / entry) through both entry points",
+    RULE="(SAN list, commonName, cn flag, host) tuples fed to the real match_hostname / connection._match_hostname and (certificate bytes, pin) pairs fed to assert_fingerprint; names built from the label alphabet {a,b,ab,*,a*,*a,a*b,**,xn--a,xn--*,''}: all single-entry x host pairs up to the stated label counts, strided 4-label pairs, case variants, random 2-3 entry lists, exhaustive small commonName grid, IP spellings typed DNS / IP Address; pins: case change, colon at every position, every single-nibble flip, every truncation, 1-2 nibble extensions, wrong-length digests; a case is non-trivial unless it is the unmodified true pin; distinct = distinct tuples; call histories (accepting call, then rejecting calls that share its host / SAN list / entry) through both entry points; pin histories: after a malformed pin of the right length (non-hex character) the true pins of every length and spelling are still accepted",
     ASSUMPTIONS=COMMON_ASSUMPTIONS + [
         "three-valued reference: partial wildcards (a*, *a, a*b), bare '*', hosts that themselves contain '*', empty names and unparsable iPAddress entries are 'either' and only counted",
-        "commonName is must-accept only when enabled, the host is not an IP and the certificate has no DNS/IP SAN entry",
+        "commonName is must-accept only when enabled, the host is not an IP and the certificate has no subjectAltName entry at all; with a SAN that holds only non-host names (URI, email) it is 'either' (RFC 6125 6.4.4 forbids the fallback, OpenSSL's X509_check_host and CPython's matcher apply it)",
         "SAN lists longer than 3 entries and names longer than 4 labels are not generated",
     ],
     SHARDS={"quick": 8, "thorough": 16},
@@ -60,7 +60,7 @@ reg(
     LEVEL_TEXT="Runtime monitoring of the real matchers against an independent three-valued RFC 6125 reference: every single-entry/host pair over the stated label alphabet up to 3 labels is enumerated (4 labels strided), plus case variants, multi-entry lists, the commonName grid, IP-literal spellings through both entry points, and the complete stated pin-mutation family for MD5/SHA-1/SHA-256 digests of several certificates.",
     LEVEL_NOTE="Trusts the reference matcher (about 60 lines, written from the statement) and Python's ipaddress module for address values; 'either' points are counted but never judged.",
     TECHNIQUE="differential runtime monitoring against a three-valued reference matcher; exhaustive enumeration of the small alphabet",
-    REQUIRED_MONITORS={"quick": {"name_decided": 100000, "pin_verdict": 5000, "cn_rule": 500, "ip_rule": 500, "history_sequence": 400}, "thorough": {"name_decided": 10**6, "pin_verdict": 5000, "history_sequence": 400}},
+    REQUIRED_MONITORS={"quick": {"pin_history": 1000, "name_decided": 100000, "pin_verdict": 5000, "cn_rule": 500, "ip_rule": 500, "history_sequence": 400}, "thorough": {"pin_history": 1000, "name_decided": 10**6, "pin_verdict": 5000, "history_sequence": 400}},
 )
 
 reg(
@@ -82,7 +82,7 @@ reg(
 
 reg(
     "C20",
-    RULE="field lists given to encode_multipart_formdata / request_encode_body: every name/filename up to a length bound over the hostile alphabet {\" ' \\ ; CR LF CRLF = é 😀 SP -- a} in four input forms and inside a 3-field sandwich; random lists of 1-4 fields (plain, (filename,data), (filename,data,mime), RequestField with extra headers) in dict/list containers with explicit or random boundaries and hostile values (CRLF, dash runs, a look-alike delimiter of another boundary, arbitrary bytes); a case is the field list + container + boundary + entry point; non-trivial = name other than ''/'a'; 1-3 multipart requests through one RequestMethods object whose default or per-call headers are None / dict / HTTPHeaderDict, random and fixed boundaries; every 7th random encode preceded by an encode that fails part-way through its fields",
+    RULE="field lists given to encode_multipart_formdata / request_encode_body: every name/filename up to a length bound over the hostile alphabet {\" ' \\ ; CR LF CRLF = é 😀 SP -- a} in four input forms and inside a 3-field sandwich; random lists of 1-4 fields (plain, (filename,data), (filename,data,mime), RequestField with extra headers) in dict/list containers with explicit or random boundaries and hostile values (CRLF, dash runs, a look-alike delimiter of another boundary, arbitrary bytes); a case is the field list + container + boundary + entry point; non-trivial = name other than ''/'a'; 1-3 multipart requests through one RequestMethods object whose default or per-call headers are None / dict / HTTPHeaderDict, random and fixed boundaries; every 7th random encode preceded by an encode that fails part-way through its fields; realistic file names whose guessed type depends on more than the last extension, in every order of two; RFC 2046 example boundaries (boundary parameter must be a token or a quoted-string: recorded finding); MIME types and extra headers containing CR/LF must be refused",
     ASSUMPTIONS=COMMON_ASSUMPTIONS + [
         "premise of the statement: cases whose data contains the chosen boundary delimiter are skipped (counted)",
         "expected parameter values use forward WHATWG escaping (CR, LF, double quote percent-encoded, UTF-8); un-escaping is not attempted because it is not injective",
@@ -93,12 +93,12 @@ reg(
     LEVEL_TEXT="Runtime monitoring of the encoder: every produced body is parsed back by a strict independent multipart parser and compared part by part (count, order, exact header lines, disposition parameters, byte-identical data, boundary named = boundary used), for an exhaustive hostile-name space and random field lists, through three entry points including the in-memory wire.",
     LEVEL_NOTE="Trusts the strict multipart parser in vf/wire.py (about 60 lines) and Python's mimetypes for the default part type.",
     TECHNIQUE="round-trip runtime monitoring with an independent strict parser (structural oracle) + forward-escaping reference",
-    REQUIRED_MONITORS={"quick": {"parse_back": 5000, "part_compare": 8000, "wire_roundtrip": 3, "multipart_sequence": 30, "encode_after_failed_encode": 1000}, "thorough": {"parse_back": 10**5, "part_compare": 10**5, "wire_roundtrip": 20, "multipart_sequence": 30, "encode_after_failed_encode": 1000}},
+    REQUIRED_MONITORS={"quick": {"filename_pair": 300, "parse_back": 5000, "part_compare": 8000, "wire_roundtrip": 3, "multipart_sequence": 30, "encode_after_failed_encode": 1000}, "thorough": {"filename_pair": 300, "parse_back": 10**5, "part_compare": 10**5, "wire_roundtrip": 20, "multipart_sequence": 30, "encode_after_failed_encode": 1000}},
 )
 
 reg(
     "C18",
-    RULE="pairs of request contexts for one PoolManager that differ in exactly one keyword (or in none / only host case and explicit default port); the keyword universe is computed from inspect.signature of HTTP(S)ConnectionPool and HTTP(S)Connection constructors + PoolKey._fields + SSL_KEYWORDS; every keyword gets 2-13 pairwise-distinct typed values, all value pairs are compared, via pool_kwargs and via constructor defaults, for http and https; a case is (keyword, scheme, placement, value index); distinct = distinct such tuples; all are non-trivial; default -> override -> default and override-first sequences on one ProxyManager for every public keyword; a manager around a caller-supplied SSLContext whose verify_mode is rewritten by connections made with cert_reqs overrides",
+    RULE="pairs of request contexts for one PoolManager that differ in exactly one keyword (or in none / only host case and explicit default port); the keyword universe is computed from inspect.signature of HTTP(S)ConnectionPool and HTTP(S)Connection constructors + PoolKey._fields + SSL_KEYWORDS; every keyword gets 2-13 pairwise-distinct typed values, all value pairs are compared, via pool_kwargs and via constructor defaults, for http and https; a case is (keyword, scheme, placement, value index); distinct = distinct such tuples; all are non-trivial; default -> override -> default and override-first sequences on one ProxyManager for every public keyword; a manager around a caller-supplied SSLContext whose verify_mode is rewritten by connections made with cert_reqs overrides; the pool is also observed where urlopen() picks it: a look-up with per-call overrides followed by plain request() calls under the manager's own different settings must use two sockets; request contexts handed to connection_from_context() twice",
     ASSUMPTIONS=COMMON_ASSUMPTIONS + [
         "values come from a typed table; a keyword missing from the table gets two sentinel strings and is listed in the evidence",
         "'equal settings' means equal by the value type's own equality (dicts/lists by value; SSLContext, Retry, Timeout objects by identity)",
@@ -110,12 +110,12 @@ reg(
     LEVEL_TEXT="Runtime monitoring of pool identity: for every keyword the constructors accept (derived from their signatures at run time) and every pair of table values, the PoolManager's returned pool objects are observed for distinctness / sameness, the manager's defaults are snapshotted before and after, and a sample of keywords is driven end to end over the in-memory network to observe that a differing setting dials a new socket.",
     LEVEL_NOTE="Complete over the signature-derived keyword set and the value table (finite, enumerated); trusts inspect.signature and the value table's typing.",
     TECHNIQUE="signature-derived differential monitoring of pool identity + dial-count monitor on the in-memory network",
-    REQUIRED_MONITORS={"quick": {"distinct_for_different": 300, "same_for_equal": 100, "defaults_unchanged": 50, "e2e_dials": 10, "proxy_manager_sequence": 40, "context_state_sequence": 4}, "thorough": {"distinct_for_different": 300, "same_for_equal": 100, "defaults_unchanged": 50, "e2e_dials": 10, "proxy_manager_sequence": 40, "context_state_sequence": 4}},
+    REQUIRED_MONITORS={"quick": {"e2e_urlopen_dials": 60, "from_context_reuse": 4, "distinct_for_different": 300, "same_for_equal": 100, "defaults_unchanged": 50, "e2e_dials": 10, "proxy_manager_sequence": 40, "context_state_sequence": 4}, "thorough": {"e2e_urlopen_dials": 60, "from_context_reuse": 4, "distinct_for_different": 300, "same_for_equal": 100, "defaults_unchanged": 50, "e2e_dials": 10, "proxy_manager_sequence": 40, "context_state_sequence": 4}},
 )
 
 reg(
     "C10",
-    RULE="calls of HTTPConnection.request, HTTPConnectionPool.urlopen, PoolManager.request and ProxyManager.request (forwarding, absolute-form) with method / URL / header name / header value built from benign seeds by inserting each of 40 hostile strings (CR, LF, CRLF, NUL, DEL, SP, HTAB, ':', non-ASCII, percent forms, '#', '?', backslash, an embedded header line, an embedded complete request, degenerate folds ...) at every position (exhaustive for one insertion), special inputs (empty / odd methods, automatic-header supply and SKIP_HEADER combinations, repeated fields, bytes names, all body kinds incl. bodies containing a complete request), random multi-field insertions, and two-call sequences on one pool/manager (hostile call, then a benign one whose bytes must be exactly its own request); HTTP/2: names x values through HTTP2Connection.putheader observed at H2Connection.send_headers; a case is the argument tuple; all are non-trivial; distinct = distinct tuples; empty and one-byte bodies under caller-requested chunked framing; a 2-byte-item buffer body whose bytes spell a second request; https URLs with every hostile symbol at every position of host / port requested through a CONNECT tunnel (the bytes sent to the proxy must be one well-formed CONNECT)",
+    RULE="calls of HTTPConnection.request, HTTPConnectionPool.urlopen, PoolManager.request and ProxyManager.request (forwarding, absolute-form) with method / URL / header name / header value built from benign seeds by inserting each of 40 hostile strings (CR, LF, CRLF, NUL, DEL, SP, HTAB, ':', non-ASCII, percent forms, '#', '?', backslash, an embedded header line, an embedded complete request, degenerate folds ...) at every position (exhaustive for one insertion), special inputs (empty / odd methods, automatic-header supply and SKIP_HEADER combinations, repeated fields, bytes names, all body kinds incl. bodies containing a complete request), random multi-field insertions, and two-call sequences on one pool/manager (hostile call, then a benign one whose bytes must be exactly its own request); HTTP/2: names x values through HTTP2Connection.putheader observed at H2Connection.send_headers; a case is the argument tuple; all are non-trivial; distinct = distinct tuples; empty and one-byte bodies under caller-requested chunked framing; a 2-byte-item buffer body whose bytes spell a second request; https URLs with every hostile symbol at every position of host / port requested through a CONNECT tunnel (the bytes sent to the proxy must be one well-formed CONNECT); header names ending in SP/HTAB count as the header they spell in the automatic-header rule; bodies that are not sendable at all (int, float, bool, object) and duck-typed readers; connection-level sequences (rejected or sent call, close(), benign request on the same object); sequences on one client whose default / reused header container is a dict or an HTTPHeaderDict and whose calls give the body as fields=, json=, body= or nothing",
     ASSUMPTIONS=COMMON_ASSUMPTIONS + [
         "a bare CR or LF inside a header value is tolerated only when followed by SP/HTAB (a degenerate line fold: no recipient can read it as a new field); header names need not be RFC tokens (one odd header line, not an injected one)",
         "target relation: percent-decoding the emitted target gives the requested target (or its percent-decoded form) without fragment, dot-segments removed for the PoolManager/ProxyManager entries, and the emitted target uses RFC 3986 characters only; HTTPConnection.request must emit the target verbatim",
@@ -126,7 +126,7 @@ reg(
     LEVEL_TEXT="Runtime monitoring at the socket boundary: all bytes passed to sendall() are parsed by an independent strict HTTP/1.1 request parser (exactly one request, CRLF discipline, token method, no residue) and related back to the arguments (method identical, target an encoding of the requested one, caller header lines in order and unmodified, automatic Host/Accept-Encoding/User-Agent lines exactly per the rule); a call that raises must have written nothing.",
     LEVEL_NOTE="Trusts the strict parser in vf/wire.py and urllib.parse.unquote_to_bytes; inputs are the stated hostile alphabet at every position plus random combinations, not all strings.",
     TECHNIQUE="wire-level runtime monitoring with an independent strict request parser + relational oracle on method/target/headers",
-    REQUIRED_MONITORS={"quick": {"call": 10000, "wire_parse": 3000, "header_list": 2000, "target_relation": 2000, "h2_header": 1000, "sequence": 1000, "empty_body_chunked": 40, "tunnel_call": 500}, "thorough": {"call": 50000, "wire_parse": 15000, "h2_header": 1000, "empty_body_chunked": 40, "tunnel_call": 500}},
+    REQUIRED_MONITORS={"quick": {"conn_reuse_after_close": 40, "defaults_sequence": 50, "connect_headers": 100, "call": 10000, "wire_parse": 3000, "header_list": 2000, "target_relation": 2000, "h2_header": 1000, "sequence": 1000, "empty_body_chunked": 40, "tunnel_call": 500}, "thorough": {"conn_reuse_after_close": 40, "defaults_sequence": 50, "connect_headers": 100, "call": 50000, "wire_parse": 15000, "h2_header": 1000, "empty_body_chunked": 40, "tunnel_call": 500}},
 )
 
 reg(
@@ -148,7 +148,7 @@ reg(
 reg(
     "C13",
     LEVEL="fault_enumeration",
-    RULE="(response spec, damage, read pattern) triples: C12's responses damaged by (a) truncation at every byte of the body section for small bodies (sampled for large) followed by EOF, (b) replacement of every digit of chunk-size lines by a non-hex character or removal of the size, (c) single-byte corruption of the compressed stream inside complete framing, (d) an incomplete content stream inside complete framing; read with read(), read(n) loops, read1(n) loops, read1() loops, readinto, stream(a), read_chunked(a), iteration and preload through a real pool, followed by a second request on the same pool; a case is the triple; all non-trivial; distinct = distinct triples; zstd frames with several blocks and a content checksum, cut at every byte position, read with stream(1)/stream(2) among the patterns; end of body is the first empty result of the read pattern",
+    RULE="(response spec, damage, read pattern) triples: C12's responses damaged by (a) truncation at every byte of the body section for small bodies (sampled for large) followed by EOF, (b) replacement of every digit of chunk-size lines by a non-hex character or removal of the size, (c) single-byte corruption of the compressed stream inside complete framing, (d) an incomplete content stream inside complete framing; read with read(), read(n) loops, read1(n) loops, read1() loops, readinto, stream(a), read_chunked(a), iteration and preload through a real pool, followed by a second request on the same pool; a case is the triple; all non-trivial; distinct = distinct triples; zstd frames with several blocks and a content checksum, cut at every byte position, read with stream(1)/stream(2) among the patterns; end of body is the first empty result of the read pattern; a Content-Length around urllib3's internal thresholds (2**28, 2**31) with a few body bytes, with the stdlib backend and with pyOpenSSL injected; Content-Length in list form ('5, 5') with a short body; stacks of codings with zstd outermost cut at every point; zero-padded chunk sizes cut inside a size line (recorded finding)",
     ASSUMPTIONS=COMMON_ASSUMPTIONS + [
         "three-valued: cuts at or after the '0' of the terminating chunk, truncated gzip/deflate streams inside complete framing, corruption the reference decoder (zlib/zstandard used directly) does not notice, and corruption in the second gzip member (documented trailing-garbage tolerance) are 'either'; close-delimited bodies are excluded",
         "truncation is modelled as EOF (server closes); a stalled server (read timeout) is not generated here",
@@ -158,12 +158,12 @@ reg(
     LEVEL_TEXT="Fault enumeration with runtime monitors: for every damage point and every read pattern the monitor observes whether the read sequence reached a normal end of body without ProtocolError/IncompleteRead/DecodeError (violation when the point is must-detect), which exception class surfaced, whether the carrying socket was closed, and on which socket the pool's next request was answered.",
     LEVEL_NOTE="Trusts the damage classifier (position relative to the terminating chunk; zlib/zstandard as reference decoders) and the in-memory network's EOF semantics.",
     TECHNIQUE="fault enumeration (every truncation point x read API) with an end-of-body monitor and a connection-reuse monitor on the in-memory network",
-    REQUIRED_MONITORS={"quick": {"damaged_response": 5000, "must_detect": 3000, "second_request": 3000}, "thorough": {"damaged_response": 50000, "must_detect": 30000, "second_request": 30000}},
+    REQUIRED_MONITORS={"quick": {"huge_announced": 300, "content_length_list": 200, "zero_padded_chunk_size": 100, "damaged_response": 5000, "must_detect": 3000, "second_request": 3000}, "thorough": {"huge_announced": 300, "content_length_list": 200, "zero_padded_chunk_size": 100, "damaged_response": 50000, "must_detect": 30000, "second_request": 30000}},
 )
 
 reg(
     "C11",
-    RULE="product of body kind (None, bytes, bytearray, memoryview, array, str ASCII/non-ASCII, BytesIO, StringIO, binary file at offset 0/k/EOF, text file, read-only file-like, file-like whose tell raises, unseekable file, seekable streams that return short reads before EOF (pipe-like, RawIOBase), generator, lists with and without empty chunks, iterable of str, tuple) x size {0,1,blocksize-1,blocksize,blocksize+1,5*blocksize} (blocksize 64; default block size once) x method {GET,HEAD,DELETE,OPTIONS,POST,PUT,PATCH,custom} x chunked flag x history {ok, reset-ok, eof-ok, send-reset-ok, 503-ok, 503-503-ok, 301/307/308-ok, 307-307-ok, 303-ok, 503-307-ok} x entry {bare pool, PoolManager}; a case is that tuple; non-trivial unless body None with history ok; bytes-like bodies whose buffer has multi-byte items (array('H'), memoryview.cast('I')); 90 kB bodies of 7 kinds over real TLS (direct, CONNECT tunnel, TLS-in-TLS), with and without chunked framing, hashed by the origin",
+    RULE="product of body kind (None, bytes, bytearray, memoryview, array, str ASCII/non-ASCII, BytesIO, StringIO, binary file at offset 0/k/EOF, text file, read-only file-like, file-like whose tell raises, unseekable file, seekable streams that return short reads before EOF (pipe-like, RawIOBase), generator, lists with and without empty chunks, iterable of str, tuple) x size {0,1,blocksize-1,blocksize,blocksize+1,5*blocksize} (blocksize 64; default block size once) x method {GET,HEAD,DELETE,OPTIONS,POST,PUT,PATCH,custom} x chunked flag x history {ok, reset-ok, eof-ok, send-reset-ok, 503-ok, 503-503-ok, 301/307/308-ok, 307-307-ok, 303-ok, 503-307-ok} x entry {bare pool, PoolManager}; a case is that tuple; non-trivial unless body None with history ok; bytes-like bodies whose buffer has multi-byte items (array('H'), memoryview.cast('I')); 90 kB bodies of 7 kinds over real TLS (direct, CONNECT tunnel, TLS-in-TLS), with and without chunked framing, hashed by the origin; text-mode files from which the caller has already read through the text layer (readline, next, read(n), also larger than the read-ahead chunk); sequences of uploads on one connection / pool / manager / CONNECT tunnel that share one header object; large uploads over real TLS with the stdlib backend and with pyOpenSSL",
     ASSUMPTIONS=COMMON_ASSUMPTIONS + [
         "retries use Retry(total=6, status_forcelist=[503], allowed_methods=None) so that every method is re-sent and fidelity can be observed",
         "an empty bytes/str body counts as a body (exactly one framing header), only body=None is 'body-less'",
@@ -174,12 +174,12 @@ reg(
     LEVEL_TEXT="Runtime monitoring at the socket boundary over the full product of body kinds, sizes, methods, chunking and attempt histories: every attempt's bytes are decoded by the independent framing parser (exactly one of Content-Length / chunked, payload = body bytes, body-less rules) and attempt n is compared byte-for-byte with attempt 1, the only accepted alternative being UnrewindableBodyError.",
     LEVEL_NOTE="Trusts the framing parser in vf/wire.py and the generator's bookkeeping of each body's bytes; quick strides the product 1/2, thorough enumerates it completely.",
     TECHNIQUE="wire-level runtime monitoring with an independent framing parser + cross-attempt byte-equality monitor over enumerated histories",
-    REQUIRED_MONITORS={"quick": {"case": 3000, "framing": 3000, "payload_equal": 2000, "resend_compare": 2000, "tls_upload": 20}, "thorough": {"case": 30000, "resend_compare": 20000, "tls_upload": 20}},
+    REQUIRED_MONITORS={"quick": {"shared_header_sequence": 60, "case": 3000, "framing": 3000, "payload_equal": 2000, "resend_compare": 2000, "tls_upload": 40}, "thorough": {"shared_header_sequence": 60, "case": 30000, "resend_compare": 20000, "tls_upload": 40}},
 )
 
 reg(
     "C04",
-    RULE="(Retry configuration, placement, method, pool type, outcome sequence): a lattice total in {None,0,1,2,False} x one per-category budget in {0,1} crossed with all outcome sequences up to a length bound over {connect refused, read timeout, reset after the request was written, TLS-layer error, 503, 200, 429+Retry-After} for GET/POST on a direct pool; random configurations (all Retry fields incl. allowed_methods, status_forcelist, raise_on_status, respect_retry_after_header, backoff_*; ints/False/None) placed at request, pool or both levels x methods {GET,POST,PUT,DELETE,'get','post'} x sequences of length <= 5 over 14 outcomes (also connect timeout, EOF, garbage, 413/503 with Retry-After seconds or HTTP-date, non-forcelisted 500) x {direct, forwarding-proxy, tunnelling-proxy} pools; a case is that tuple; all non-trivial; backoff_max in {unset, 0, 0.0, 0.3, 1, 7}; the same client used beforehand with another plain per-request policy",
+    RULE="(Retry configuration, placement, method, pool type, outcome sequence): a lattice total in {None,0,1,2,False} x one per-category budget in {0,1} crossed with all outcome sequences up to a length bound over {connect refused, read timeout, reset after the request was written, TLS-layer error, 503, 200, 429+Retry-After} for GET/POST on a direct pool; random configurations (all Retry fields incl. allowed_methods, status_forcelist, raise_on_status, respect_retry_after_header, backoff_*; ints/False/None) placed at request, pool or both levels x methods {GET,POST,PUT,DELETE,'get','post'} x sequences of length <= 5 over 14 outcomes (also connect timeout, EOF, garbage, 413/503 with Retry-After seconds or HTTP-date, non-forcelisted 500) x {direct, forwarding-proxy, tunnelling-proxy} pools; a case is that tuple; all non-trivial; backoff_max in {unset, 0, 0.0, 0.3, 1, 7}; the same client used beforehand with another plain per-request policy; outcome sequences with redirects through the pool, a PoolManager and a forwarding ProxyManager (what the pool spent before a 3xx stays spent); a TLS failure while the response is awaited is a read error in the reference (urllib3 files it under 'other': recorded finding)",
     ASSUMPTIONS=COMMON_ASSUMPTIONS + [
         "attempts are classified by what the harness injected: connect error = failed dial; read error = receive timeout / reset / EOF / garbage after the request was completely written; other error = TLS-layer failure; the non-idempotent rule is 'must not re-send' after read errors and error statuses, 'either' after other errors",
         "the statement bounds retries from above: not retrying although a budget would allow it is not a violation",
@@ -190,12 +190,12 @@ reg(
     LEVEL_TEXT="Runtime monitoring of the closed retry loop on the in-memory network: per-attempt outcome scripts drive the real urlopen recursion; an independent accountant over the injected-outcome log checks attempts <= 1 + total, per-category retry counts, the non-idempotent rule, retries=False, immutability of the caller's Retry (deep snapshot), every recorded sleep, and how exhaustion surfaces (MaxRetryError.reason / last response).",
     LEVEL_NOTE="Trusts the accountant's classification of injected outcomes and the effective-policy resolver (request level > pool level > Retry(3)).",
     TECHNIQUE="history monitoring: per-attempt wire/fault log checked by an independent retry-budget accountant; virtual-clock sleep recorder",
-    REQUIRED_MONITORS={"quick": {"case": 8000, "budgets": 8000, "non_idempotent_rule": 8000, "sleeps": 8000, "outcome_shape": 8000, "status_retry_cause": 8000, "warmup_request": 100}, "thorough": {"case": 10**5, "budgets": 10**5, "warmup_request": 100}},
+    REQUIRED_MONITORS={"quick": {"redirect_budget_case": 1000, "case": 8000, "budgets": 8000, "non_idempotent_rule": 8000, "sleeps": 8000, "outcome_shape": 8000, "status_retry_cause": 8000, "warmup_request": 100}, "thorough": {"redirect_budget_case": 1000, "case": 10**5, "budgets": 10**5, "warmup_request": 100}},
 )
 
 reg(
     "C05",
-    RULE="(redirect graph, policy, placement, client, method): graphs over origins a.test:80, b.test:8080, https c.test:443 and a.test:8081 with chains/loops of 1-6 hops, codes {301,302,303,307,308}, Location forms {absolute, explicit default port, upper-case host, path-absolute, relative, relative with dot segments, scheme-relative, with fragment, with query, missing}; policy values {None, False, 0, 1, 2, Retry(redirect=k), Retry(total=k), both, raise_on_redirect False} placed at request level, second level (bare pool constructor / PoolManager / ProxyManager constructor), both, or redirect=False; GET and POST with body; systematic (policy x placement x client x length x code, form x code x client) plus random graphs; a case is that tuple; all non-trivial; the same client used beforehand with another per-request policy (0, False, 1, True, Retry objects, unset); the manager's own pool used directly after a pool for the same origin was looked up with a more generous override",
+    RULE="(redirect graph, policy, placement, client, method): graphs over origins a.test:80, b.test:8080, https c.test:443 and a.test:8081 with chains/loops of 1-6 hops, codes {301,302,303,307,308}, Location forms {absolute, explicit default port, upper-case host, path-absolute, relative, relative with dot segments, scheme-relative, with fragment, with query, missing}; policy values {None, False, 0, 1, 2, Retry(redirect=k), Retry(total=k), both, raise_on_redirect False} placed at request level, second level (bare pool constructor / PoolManager / ProxyManager constructor), both, or redirect=False; GET and POST with body; systematic (policy x placement x client x length x code, form x code x client) plus random graphs; a case is that tuple; all non-trivial; the same client used beforehand with another per-request policy (0, False, 1, True, Retry objects, unset); the manager's own pool used directly after a pool for the same origin was looked up with a more generous override; the first URL given without scheme with every Location form; a call that stops short of its budget without exhausting one is a violation",
     ASSUMPTIONS=COMMON_ASSUMPTIONS + [
         "one-sided: following fewer redirects than the policy allows is counted, not a violation",
         "effective policy: request-level value if not None, else the pool / manager constructor value, else Retry(3); ints mean total=n with raise_on_redirect, False means budget 0 and the 3xx is returned",
@@ -206,12 +206,12 @@ reg(
     LEVEL_TEXT="Runtime monitoring of the ordered request log of an in-memory multi-origin network: each request urllib3 makes while following a redirect graph is compared with a reference walk (resolved target, method, body, content headers) and the number of follow-ups with the budget of the policy in effect; the way exhaustion surfaces is checked against raise_on_redirect.",
     LEVEL_NOTE="Trusts the reference resolver/walker (about 80 lines) and the policy resolver; origins are distinguished by dial address and fake TLS flag.",
     TECHNIQUE="history monitoring: request log vs reference walk of the redirect graph + redirect-budget monitor",
-    REQUIRED_MONITORS={"quick": {"case": 5000, "budget": 5000, "request_sequence": 5000, "ending": 4000, "warmup_request": 100, "manager_pool_after_override_lookup": 10}, "thorough": {"case": 10**5, "budget": 10**5, "warmup_request": 100, "manager_pool_after_override_lookup": 10}},
+    REQUIRED_MONITORS={"quick": {"schemeless_start": 10, "case": 5000, "budget": 5000, "request_sequence": 5000, "ending": 4000, "warmup_request": 100, "manager_pool_after_override_lookup": 10}, "thorough": {"schemeless_start": 10, "case": 10**5, "budget": 10**5, "warmup_request": 100, "manager_pool_after_override_lookup": 10}},
 )
 
 reg(
     "C06",
-    RULE="(redirect chain, header set, container, placement, strip set, client): chain shapes A>B, A>B>A, A>B>relative, A>A:80>B, upper-case / explicit-default-port same-origin hops, port-only and scheme-only origin changes, scheme-relative and relative Locations, all 3xx codes; sensitive headers in 9 casings, custom header names; containers dict / HTTPHeaderDict (incl. repeated Cookie fields) supplied per request or as manager default; default and custom remove_headers_on_redirect given per request or on the manager constructor; PoolManager, ProxyManager (forwarding + tunnel, with proxy_headers) and a bare pool; optionally a failing first attempt; a case is that tuple; all non-trivial; requests whose headers are all in the strip set sent through managers that have sensitive default headers of their own; optionally an earlier request with credentials of its own on the same manager (nothing of it may appear in the judged chain)",
+    RULE="(redirect chain, header set, container, placement, strip set, client): chain shapes A>B, A>B>A, A>B>relative, A>A:80>B, upper-case / explicit-default-port same-origin hops, port-only and scheme-only origin changes, scheme-relative and relative Locations, all 3xx codes; sensitive headers in 9 casings, custom header names; containers dict / HTTPHeaderDict (incl. repeated Cookie fields) supplied per request or as manager default; default and custom remove_headers_on_redirect given per request or on the manager constructor; PoolManager, ProxyManager (forwarding + tunnel, with proxy_headers) and a bare pool; optionally a failing first attempt; a case is that tuple; all non-trivial; requests whose headers are all in the strip set sent through managers that have sensitive default headers of their own; optionally an earlier request with credentials of its own on the same manager (nothing of it may appear in the judged chain); a scheme-less first URL with a network-path Location; through a forwarding proxy a redirect to the proxy's own origin (recorded finding)",
     ASSUMPTIONS=COMMON_ASSUMPTIONS + [
         "origin equality: scheme, lower-cased host, port with defaults filled in (explicit default port and letter case are the same origin)",
         "dropping a sensitive header on a same-origin hop is counted, not a violation (the statement forbids forwarding, it does not demand forwarding)",
@@ -222,13 +222,13 @@ reg(
     LEVEL_TEXT="Runtime monitoring of the per-origin request log: for each request of each redirect chain, headers named by the strip set in effect must be absent from the first cross-origin hop on, all other caller headers present and unaltered, proxy headers never inside a tunnel; a bare pool must raise HostChangedError with nothing dialled or sent elsewhere.",
     LEVEL_NOTE="Trusts the independent origin-equality predicate and C05's reference walk for 'which hop is cross-origin'.",
     TECHNIQUE="history monitoring: per-origin request log vs origin-equality + strip-set oracle",
-    REQUIRED_MONITORS={"quick": {"case": 5000, "request_headers": 8000, "pool_host_guard": 100, "sensitive_only_over_defaults": 100}, "thorough": {"case": 10**5, "request_headers": 10**5, "sensitive_only_over_defaults": 100}},
+    REQUIRED_MONITORS={"quick": {"redirect_to_proxy_origin": 3, "schemeless_start": 6, "case": 5000, "request_headers": 8000, "pool_host_guard": 100, "sensitive_only_over_defaults": 100}, "thorough": {"redirect_to_proxy_origin": 3, "schemeless_start": 6, "case": 10**5, "request_headers": 10**5, "sensitive_only_over_defaults": 100}},
 )
 
 reg(
     "C01",
     LEVEL="fault_enumeration",
-    RULE="histories of 1-3 requests on one pool, each request a script of 1-3 per-attempt outcomes drawn from {connect refused / timeout / other OSError / KeyboardInterrupt / bare BaseException; send EPIPE / ECONNRESET / EIO / interrupt at the 1st or 2nd send; receive timeout / reset / EOF / garbage / TLS error / KeyboardInterrupt / SystemExit / BaseException before the status line; interrupt or OSError from the pool's liveness probe at checkout; responses 200 keep-alive / close / chunked / close-delimited / short body / fault or interrupt in the middle of the body; 204; 302/303/307 to the same host; 503 force-listed keep-alive or close; 429+Retry-After; 500}, each response disposed by one of 11 ways (read, read part then release, release unread, drain, close, part then close, stream, read1 loop, context manager, .data, drain+release) immediately or late (overlapping leases); configurations pool kind {direct, forwarding proxy, CONNECT tunnel with fake TLS} x maxsize {1,2,3} x block x 6 retry policies x preload_content x release_conn; single-outcome product enumerated (strided in quick) plus random histories; a case is (configuration, history); all non-trivial; mid-body faults also on Connection: close / close-delimited / chunked responses; body-less 302/307/503 answers; connect-step outcomes additionally through urllib3's own create_connection with 1-3 addresses per name (scripted getaddrinfo / socket constructor); disposals that stop exactly at the announced length (read1 / readinto) without a further read or release",
+    RULE="histories of 1-3 requests on one pool, each request a script of 1-3 per-attempt outcomes drawn from {connect refused / timeout / other OSError / KeyboardInterrupt / bare BaseException; send EPIPE / ECONNRESET / EIO / interrupt at the 1st or 2nd send; receive timeout / reset / EOF / garbage / TLS error / KeyboardInterrupt / SystemExit / BaseException before the status line; interrupt or OSError from the pool's liveness probe at checkout; responses 200 keep-alive / close / chunked / close-delimited / short body / fault or interrupt in the middle of the body; 204; 302/303/307 to the same host; 503 force-listed keep-alive or close; 429+Retry-After; 500}, each response disposed by one of 11 ways (read, read part then release, release unread, drain, close, part then close, stream, read1 loop, context manager, .data, drain+release) immediately or late (overlapping leases); configurations pool kind {direct, forwarding proxy, CONNECT tunnel with fake TLS} x maxsize {1,2,3} x block x 6 retry policies x preload_content x release_conn; single-outcome product enumerated (strided in quick) plus random histories; a case is (configuration, history); all non-trivial; mid-body faults also on Connection: close / close-delimited / chunked responses; body-less 302/307/503 answers; connect-step outcomes additionally through urllib3's own create_connection with 1-3 addresses per name (scripted getaddrinfo / socket constructor); disposals that stop exactly at the announced length (read1 / readinto) without a further read or release; families added after independent audits: a call rejected for its arguments while other responses are leased; a file-like body whose position cannot be recorded / restored taking a second hop (redirect, status retry, connection error) while other responses are leased; a body iterator that makes a request of its own through the same pool; undecodable announced content with partial reads; after a failed read the response is disposed of by release_conn() or close() alternately; close() alone is a complete disposal, also for a preloaded response handed out with release_conn=False",
     ASSUMPTIONS=COMMON_ASSUMPTIONS + [
         "'closed' means explicitly closed at the quiescent point, without waiting for garbage collection",
         "after a read raised, the harness calls release_conn() on that response (as the statement's 'read, released or closed' requires some disposal)",
@@ -239,12 +239,12 @@ reg(
     LEVEL_TEXT="Fault enumeration with runtime monitors at quiescent points: after every request and every disposal a sequential slot model (leased + queued = maxsize; at quiescence queued = maxsize) is compared with the pool's queue, the queue is checked for duplicate connection objects, every socket ever created must be idle in the pool, leased, or explicitly closed, dial events on block=True pools must never exceed maxsize open sockets, every exception reaching the caller must be a urllib3 HTTPError, and an injected BaseException must surface as the identical object; a lease probe checks the public behaviour (N leases, N+1 raises EmptyPoolError).",
     LEVEL_NOTE="Trusts the in-memory network's socket life-cycle bookkeeping and the slot model; reads pool.pool.queue (the LIFO queue's list) at quiescent points only.",
     TECHNIQUE="fault injection at every I/O step + invariant monitors at quiescent points (slot conservation, socket life-cycle, exception-class and interrupt-identity oracles)",
-    REQUIRED_MONITORS={"quick": {"quiescent_point": 20000, "request": 10000, "disposal": 5000, "open_socket_bound": 5000, "interrupt_identity": 200, "lease_probe": 300, "deep_dial_case": 200, "starvation": 2000}, "thorough": {"quiescent_point": 10**5, "request": 10**5, "deep_dial_case": 200, "starvation": 2000}},
+    REQUIRED_MONITORS={"quick": {"rejected_call": 500, "unrewindable_second_hop": 100, "nested_call_in_body": 16, "quiescent_point": 20000, "request": 10000, "disposal": 5000, "open_socket_bound": 5000, "interrupt_identity": 200, "lease_probe": 300, "deep_dial_case": 200, "starvation": 2000}, "thorough": {"rejected_call": 500, "unrewindable_second_hop": 100, "nested_call_in_body": 16, "quiescent_point": 10**5, "request": 10**5, "deep_dial_case": 200, "starvation": 2000}},
 )
 
 reg(
     "C03",
-    RULE="sequences of 2-4 requests (GET/HEAD/POST) over one pool of size 1-2 with retries False or 2; per arrival the server picks one of 23 behaviours (Content-Length / chunked / close-delimited, keep-alive or Connection: close, segmented delivery, a read timeout or I/O error in the middle of a segmented body whose rest is still in flight, short body, bytes beyond Content-Length, a body whose tail looks like a complete response, 100-continue, 204/304, unsolicited garbage / a complete bogus response / EOF sent with the response or while the connection is idle before the next checkout); per response the caller picks one of 9 behaviours (read all, read part then release, release unread, drain, close, read part then close, stream, stream partly then abandon, ignore); every body embeds the request id taken from the path; length-2 histories enumerated (strided in quick), longer ones random; a case is the whole history; all non-trivial; caller behaviour 'read-late' (two leases overlap, then two connections idle) and a family in which both idle connections of a pool of 2-3 receive unsolicited bytes / EOF before the next requests; a directed case for a response released unread and then garbage collected while the rest of its body is still on its way; unsolicited records on idle connections over real TLS 1.2 / 1.3 sockets",
+    RULE="sequences of 2-4 requests (GET/HEAD/POST) over one pool of size 1-2 with retries False or 2; per arrival the server picks one of 23 behaviours (Content-Length / chunked / close-delimited, keep-alive or Connection: close, segmented delivery, a read timeout or I/O error in the middle of a segmented body whose rest is still in flight, short body, bytes beyond Content-Length, a body whose tail looks like a complete response, 100-continue, 204/304, unsolicited garbage / a complete bogus response / EOF sent with the response or while the connection is idle before the next checkout); per response the caller picks one of 9 behaviours (read all, read part then release, release unread, drain, close, read part then close, stream, stream partly then abandon, ignore); every body embeds the request id taken from the path; length-2 histories enumerated (strided in quick), longer ones random; a case is the whole history; all non-trivial; caller behaviour 'read-late' (two leases overlap, then two connections idle) and a family in which both idle connections of a pool of 2-3 receive unsolicited bytes / EOF before the next requests; a directed case for a response released unread and then garbage collected while the rest of its body is still on its way; unsolicited records on idle connections over real TLS 1.2 / 1.3 sockets; caller behaviours read1()/readinto() loops and early release (release_conn=True with a streamed body, then close() or read()); server behaviours that deliver the body in chosen pieces (equal parts, a second half / a whole body that is itself an HTTP message, a read that fails right before that part); real-TLS strays, also in the same TLS record as the end of the previous body and on a connection object re-established while another descriptor holds the number of its old socket",
     ASSUMPTIONS=COMMON_ASSUMPTIONS + [
         "unsolicited bytes are sent either together with the response or at an idle point before the next checkout; bytes arriving after checkout are outside the statement",
         "a request arriving on a connection with undelivered bytes of the previous exchange is allowed as long as no response is handed to the caller for it (urllib3 may fail with ProtocolError and retry)",
@@ -254,15 +254,15 @@ reg(
     LEVEL_TEXT="Runtime monitoring with tagged responses: every delivered byte sequence must be a prefix of the body generated for that request id (foreign, shifted or stray bytes are visible), the delivered status must be one the server sent for that id, and the server-side monitor flags any response obtained from a connection that still had undelivered bytes of an earlier exchange when the request arrived.",
     LEVEL_NOTE="Trusts the in-memory network's delivery bookkeeping (segments / kernel buffer) for the 'unclean connection' monitor.",
     TECHNIQUE="history monitoring with unique ids embedded in every response (prefix oracle) + server-side cleanliness monitor at request arrival",
-    REQUIRED_MONITORS={"quick": {"history": 5000, "body_prefix": 10000, "clean_connection": 5000, "two_idle_connections": 60, "released_unread_then_collected": 4, "tls_idle_stray": 8}, "thorough": {"history": 10**5, "body_prefix": 10**5, "two_idle_connections": 60, "released_unread_then_collected": 4, "tls_idle_stray": 8}},
+    REQUIRED_MONITORS={"quick": {"tls_stray_after_reconnect": 4, "history": 5000, "body_prefix": 10000, "clean_connection": 5000, "two_idle_connections": 60, "released_unread_then_collected": 4, "tls_idle_stray": 8}, "thorough": {"tls_stray_after_reconnect": 4, "history": 10**5, "body_prefix": 10**5, "two_idle_connections": 60, "released_unread_then_collected": 4, "tls_idle_stray": 8}},
 )
 
 reg(
     "C19",
-    RULE="(timeout configuration, placement, durations, scheme, request sequence): (total, connect, read) over {unset, None, 0.5, 2, 10}^3 and legacy single numbers, given to the pool, to the request, or both (request must win; the next request falls back to the pool's); connect durations {0,0.3,1,5,20}, send durations {0,0.2,1.5}, response durations {0,0.4,1.5,3,9,12,30} on a virtual clock; http pools (connect inside request), https pools with a fake TLS layer (connect inside validation) and https-through-proxy tunnels; 2-3 requests per pool so that fresh and reused connections and a shared pool-level Timeout are covered; plus 12 invalid values x 3 fields x Timeout / pool / request placements; a case is that tuple; all non-trivial; the invalid values once more after equal-valued valid timeouts (1, 1.0, ...) were used in the process",
+    RULE="(timeout configuration, placement, durations, scheme, request sequence): (total, connect, read) over {unset, None, 0.5, 2, 10}^3 and legacy single numbers, given to the pool, to the request, or both (request must win; the next request falls back to the pool's); connect durations {0,0.3,1,5,20}, send durations {0,0.2,1.5}, response durations {0,0.4,1.5,3,9,12,30} on a virtual clock; http pools (connect inside request), https pools with a fake TLS layer (connect inside validation) and https-through-proxy tunnels; 2-3 requests per pool so that fresh and reused connections and a shared pool-level Timeout are covered; plus 12 invalid values x 3 fields x Timeout / pool / request placements; a case is that tuple; all non-trivial; the invalid values once more after equal-valued valid timeouts (1, 1.0, ...) were used in the process; the same grid through a PoolManager that already holds pools for the host with timeouts agreeing on some of (total, connect, read); the connect phase of a tunnelled request (dial + CONNECT) counts towards total",
     ASSUMPTIONS=COMMON_ASSUMPTIONS + [
         "'unset' means the system default (socket.getdefaulttimeout(), None here); values are compared as recorded at the dial / at settimeout() with a 1e-6 tolerance",
-        "for CONNECT tunnels only the timeout handed to the dial (to the proxy) is judged against min(connect, total) of the request in effect; the tunnel is established before the per-request clock starts, so its duration is not part of 'time already spent connecting'",
+        "for CONNECT tunnels the dial to the proxy and the writing of the CONNECT request are the connect phase of the attempt: their (virtual) durations are charged against total like a direct connect",
         "float('nan') and infinity are not in the invalid set (the statement lists zero, negatives, booleans and non-numbers)",
     ],
     SHARDS={"quick": 8, "thorough": 16},
@@ -271,12 +271,12 @@ reg(
     LEVEL_TEXT="Runtime monitoring on a virtual clock: the timeout handed to every dial and the last settimeout() before every response wait are recorded by the in-memory socket and compared with the reference arithmetic; a zero remaining budget must raise ReadTimeoutError without any recv(); no negative value may ever be set; invalid values must be rejected with ValueError before any I/O; a pool-level Timeout object must never have its own clock started.",
     LEVEL_NOTE="Trusts the reference arithmetic (10 lines) and the virtual clock substitution for time.monotonic in urllib3.util.timeout.",
     TECHNIQUE="runtime monitoring of socket timeout values on a virtual clock against reference arithmetic (full configuration grid)",
-    REQUIRED_MONITORS={"quick": {"request": 2000, "connect_timeout": 1000, "read_timeout": 1000, "invalid_rejected": 30, "invalid_after_priming": 4}, "thorough": {"request": 20000, "connect_timeout": 10000, "read_timeout": 10000, "invalid_rejected": 30, "invalid_after_priming": 4}},
+    REQUIRED_MONITORS={"quick": {"manager_prior_pools": 50, "request": 2000, "connect_timeout": 1000, "read_timeout": 1000, "invalid_rejected": 30, "invalid_after_priming": 4}, "thorough": {"manager_prior_pools": 50, "request": 20000, "connect_timeout": 10000, "read_timeout": 10000, "invalid_rejected": 30, "invalid_after_priming": 4}},
 )
 
 reg(
     "C15",
-    RULE="http/https URLs that PoolManager accepts: 17 host forms (names in several casings, trailing dot, IPv4, bracketed IPv6 with and without zone, IDN as U-label / upper-case / A-label) x 8 port forms (none, explicit default, odd, 0, 65535, leading zeros) x http/https x direct / through a proxy (forwarded absolute-form or CONNECT tunnel); userinfo x path x query x fragment forms (empty path with query, dot segments, spaces, non-ASCII, percent forms); case / explicit-default-port variants of one URL; random assemblies; a case is (URL, route); all non-trivial; redirects followed by the manager from 5 first URLs to 10 second URLs (other host / port / scheme), direct and through a proxy, with and without caller headers; every host spelling first parsed under ws / ftp / socks5h; manager default and caller headers also as HTTPHeaderDict",
+    RULE="http/https URLs that PoolManager accepts: 17 host forms (names in several casings, trailing dot, IPv4, bracketed IPv6 with and without zone, IDN as U-label / upper-case / A-label) x 8 port forms (none, explicit default, odd, 0, 65535, leading zeros) x http/https x direct / through a proxy (forwarded absolute-form or CONNECT tunnel); userinfo x path x query x fragment forms (empty path with query, dot segments, spaces, non-ASCII, percent forms); case / explicit-default-port variants of one URL; random assemblies; a case is (URL, route); all non-trivial; redirects followed by the manager from 5 first URLs to 10 second URLs (other host / port / scheme), direct and through a proxy, with and without caller headers; every host spelling first parsed under ws / ftp / socks5h; manager default and caller headers also as HTTPHeaderDict; through a forwarding proxy an explicit default port and an empty path must give the same bytes as the plain spelling; scoped IPv6 literals whose zone ids differ in letter case on one manager (dial monitor)",
     ASSUMPTIONS=COMMON_ASSUMPTIONS + [
         "the TLS server name is observed at the innermost wrap call (urllib3.connection.ssl_wrap_socket replaced by a recorder, everything above it is the real code); no real handshake is made here (C07/C09 do that)",
         "oracle decisions fixed by the wording: dial host keeps a trailing dot and the zone id but never brackets; Host is the host without zone, bracketed for IPv6, trailing dot either, port appended iff not the scheme default; TLS server name has no brackets, zone or trailing dot",
@@ -287,12 +287,12 @@ reg(
     LEVEL_TEXT="Runtime monitoring of four independently derived observables per URL on the in-memory network (dial address, Host header parsed by the strict request parser, server name handed to the TLS layer, request target) against an independent reading of the URL, plus pool identity and byte-identity for case/default-port variants.",
     LEVEL_NOTE="Trusts the reference URL reader shared with C14 and the idna package for IDN hosts.",
     TECHNIQUE="relational runtime monitoring: consistency of dial address, Host header, TLS server name and request target with an independent URL reading",
-    REQUIRED_MONITORS={"quick": {"url": 1500, "dial": 1000, "host_header": 1000, "request_target": 1000, "tls_server_name": 40, "same_pool": 5, "manager_sequence": 6, "redirect_follow_up": 100, "primed_other_scheme": 400}, "thorough": {"url": 20000, "tls_server_name": 1000, "redirect_follow_up": 100, "primed_other_scheme": 400}},
+    REQUIRED_MONITORS={"quick": {"zone_case_sequence": 3, "same_bytes": 10, "url": 1500, "dial": 1000, "host_header": 1000, "request_target": 1000, "tls_server_name": 40, "same_pool": 5, "manager_sequence": 6, "redirect_follow_up": 100, "primed_other_scheme": 400}, "thorough": {"zone_case_sequence": 3, "same_bytes": 10, "url": 20000, "tls_server_name": 1000, "redirect_follow_up": 100, "primed_other_scheme": 400}},
 )
 
 reg(
     "C02",
-    RULE="(configuration, schedule): configurations = 2-3 worker threads x 1-2 requests each on one pool, maxsize {1,2}, block {True,False}, optional closer thread calling close(), optional failing first attempt (connection reset or 503 retried), preloaded or streamed+released responses; schedules = every interleaving with at most 1 (quick) / 2 (thorough) preemptions at line granularity inside _get_conn/_put_conn/close/_close_pool_connections/release_conn/urlopen/_new_conn (breadth-first, capped per configuration) plus seeded random-walk and PCT-style priority schedules over all instrumented lines of connectionpool.py, response.py and connection.py; plus real-scheduler stress runs (6-12 threads x 40-150 requests, stdlib queue.LifoQueue with monitor hooks under its own mutex, switch interval 1e-6, seeded yield injection); a case is (configuration, decision list or seed); non-trivial = at least one preemption; distinct interleavings are counted by the hash of the switch sequence; plus a directed family for close(): one worker preempted at its lease boundary, then close() to completion at every later decision point; switch points also inside the queue's put/get (after the caller loaded the queue object); body-less 503 / 302 first answers on block=True pools",
+    RULE="(configuration, schedule): configurations = 2-3 worker threads x 1-2 requests each on one pool, maxsize {1,2}, block {True,False}, optional closer thread calling close(), optional failing first attempt (connection reset or 503 retried), preloaded or streamed+released responses; schedules = every interleaving with at most 1 (quick) / 2 (thorough) preemptions at line granularity inside _get_conn/_put_conn/close/_close_pool_connections/release_conn/urlopen/_new_conn (breadth-first, capped per configuration) plus seeded random-walk and PCT-style priority schedules over all instrumented lines of connectionpool.py, response.py and connection.py; plus real-scheduler stress runs (6-12 threads x 40-150 requests, stdlib queue.LifoQueue with monitor hooks under its own mutex, switch interval 1e-6, seeded yield injection); a case is (configuration, decision list or seed); non-trivial = at least one preemption; distinct interleavings are counted by the hash of the switch sequence; plus a directed family for close(): one worker preempted at its lease boundary, then close() to completion at every later decision point; switch points also inside the queue's put/get (after the caller loaded the queue object); body-less 503 / 302 first answers on block=True pools; watchdog configurations: a worker calls shutdown() on a response it has read and released a moment ago (ownership monitor also on shutdown events)",
     ASSUMPTIONS=COMMON_ASSUMPTIONS + [
         "controlled mode: exactly one worker runs at a time; preemption points are sys.monitoring LINE events, so switches between two bytecodes of one statement are not explored",
         "the pool's queue is replaced through the documented QueueCls extension point by a cooperative LIFO queue with the semantics of queue.LifoQueue (maxsize, Full/Empty, blocking get with timeout); preemption inside the C code of queue/threading is not explored",
@@ -309,7 +309,7 @@ reg(
 
 reg(
     "C17",
-    RULE="(i) every operation sequence up to length 5 (quick, 3 keys) / 6 (thorough, 4 keys) over get/set/delete per key + clear + len, maxsize in {0,1,2,3}, on the real RecentlyUsedContainer vs a sequential LRU model with dispose log; (ii) 7 concurrent container scenarios (2-3 threads x 1-3 operations) x maxsize {0,1,2} under the controlled scheduler: all schedules with <= 2 preemptions at line granularity inside the container methods (capped) + random schedules, histories checked for linearizability, exactly-once disposal, conservation, dispose-never-under-lock; (iii) 6 PoolManager scenarios x num_pools {1,2}: threads doing connection_from_url over 3 origins, full requests, streamed responses held across evictions, clear() and len(), same exploration; a case is the sequence or (scenario, schedule); non-trivial = length >= 3 / at least one preemption; manager scenarios include requests whose redirect the manager follows and direct pool.urlopen calls on cached pools; pools of 2-3 slots brought into every queue shape by overlapping streamed requests (finished / failed / closed in every order) and by failing requests under the scheduler, then evicted / cleared / closed",
+    RULE="(i) every operation sequence up to length 5 (quick, 3 keys) / 6 (thorough, 4 keys) over get/set/delete per key + clear + len, maxsize in {0,1,2,3}, on the real RecentlyUsedContainer vs a sequential LRU model with dispose log; (ii) 7 concurrent container scenarios (2-3 threads x 1-3 operations) x maxsize {0,1,2} under the controlled scheduler: all schedules with <= 2 preemptions at line granularity inside the container methods (capped) + random schedules, histories checked for linearizability, exactly-once disposal, conservation, dispose-never-under-lock; (iii) 6 PoolManager scenarios x num_pools {1,2}: threads doing connection_from_url over 3 origins, full requests, streamed responses held across evictions, clear() and len(), same exploration; a case is the sequence or (scenario, schedule); non-trivial = length >= 3 / at least one preemption; manager scenarios include requests whose redirect the manager follows and direct pool.urlopen calls on cached pools; pools of 2-3 slots brought into every queue shape by overlapping streamed requests (finished / failed / closed in every order) and by failing requests under the scheduler, then evicted / cleared / closed; sequential look-up histories on a PoolManager and a forwarding / tunnelling ProxyManager through every entry point, compared step by step with the LRU model (cache content and order, pool handed out is the cached one, same parameters same object until evicted)",
     ASSUMPTIONS=COMMON_ASSUMPTIONS + [
         "the container's lock is replaced through its public 'lock' instance attribute by a cooperative re-entrant lock (identical semantics), the pools' queue through QueueCls; preemption points are LINE events",
         "same-key-same-pool under races is judged as: two different pool objects for one origin are only acceptable if the first one was evicted or cleared (recorded at the container's dispose callback) before the second was handed out",
@@ -320,12 +320,12 @@ reg(
     LEVEL_TEXT="Model-based runtime monitoring of the real LRU container (exhaustive short sequential histories vs a sequential model with dispose log) plus controlled-scheduler exploration of concurrent container and PoolManager histories with a linearizability checker, exactly-once disposal / conservation monitors, a 'dispose never under the lock' hook, the num_pools bound, the same-key-same-pool rule, in-flight responses across evictions and a socket sweep after references are dropped.",
     LEVEL_NOTE="Trusts the 50-line LRU model, the brute-force linearizability search (histories <= 9 operations, node budget => inconclusive) and the scheduler.",
     TECHNIQUE="reference-model comparison (sequential, exhaustive) + linearizability checking of scheduler-controlled concurrent histories + disposal/bound/leak monitors",
-    REQUIRED_MONITORS={"quick": {"sequential_history": 100000, "container_schedule": 500, "linearizability": 500, "manager_schedule": 200, "same_key_same_pool": 200, "inflight_and_sweep": 200, "queue_shape_sweep": 100}, "thorough": {"sequential_history": 10**6, "container_schedule": 10000, "manager_schedule": 5000, "queue_shape_sweep": 100}},
+    REQUIRED_MONITORS={"quick": {"manager_lookup": 500, "sequential_history": 100000, "container_schedule": 500, "linearizability": 500, "manager_schedule": 200, "same_key_same_pool": 200, "inflight_and_sweep": 200, "queue_shape_sweep": 100}, "thorough": {"manager_lookup": 500, "sequential_history": 10**6, "container_schedule": 10000, "manager_schedule": 5000, "queue_shape_sweep": 100}},
 )
 
 reg(
     "C07",
-    RULE="(server certificate, client settings, route, backend): leaf in {exact, wildcard, upper-case wildcard, IPv4, IPv6, commonName-only, other name, multi-SAN} x issuer in {trusted, untrusted CA} x requested host form (case, trailing dot, sub-label, bare domain, IPv4, bracketed IPv6 with and without zone, A-label) x cert_reqs in {unset, REQUIRED, OPTIONAL, NONE} x assert_hostname in {unset, False, matching name, other name} x assert_fingerprint in {unset, sha256, sha1, md5, colon/upper-case spelling, wrong digest, bad length} x server_hostname in {unset, right, wrong} x ssl_context in {none, default-like, check_hostname off, verify none} x CA source in {ca_certs, ca_cert_data, none, and the same two naming only the second CA} x route in {direct, CONNECT tunnel through an http proxy, CONNECT tunnel through an https proxy (TLS-in-TLS, ssl backend only)} x backend in {ssl, pyOpenSSL}; one-factor-at-a-time around the secure default for every leaf x host, plus random lattice points; a case is that tuple; all non-trivial (each makes a real handshake); plus a route 'manager-after-lax': one PoolManager from which a pool with laxer pool_kwargs (assert_hostname=False and/or cert_reqs=CERT_NONE) was obtained and used before the judged request goes out with the manager's own settings; CA file for one CA plus CA data for the other",
+    RULE="(server certificate, client settings, route, backend): leaf in {exact, wildcard, upper-case wildcard, IPv4, IPv6, commonName-only, other name, multi-SAN} x issuer in {trusted, untrusted CA} x requested host form (case, trailing dot, sub-label, bare domain, IPv4, bracketed IPv6 with and without zone, A-label) x cert_reqs in {unset, REQUIRED, OPTIONAL, NONE} x assert_hostname in {unset, False, matching name, other name} x assert_fingerprint in {unset, sha256, sha1, md5, colon/upper-case spelling, wrong digest, bad length} x server_hostname in {unset, right, wrong} x ssl_context in {none, default-like, check_hostname off, verify none} x CA source in {ca_certs, ca_cert_data, none, and the same two naming only the second CA} x route in {direct, CONNECT tunnel through an http proxy, CONNECT tunnel through an https proxy (TLS-in-TLS, ssl backend only)} x backend in {ssl, pyOpenSSL}; one-factor-at-a-time around the secure default for every leaf x host, plus random lattice points; a case is that tuple; all non-trivial (each makes a real handshake); plus a route 'manager-after-lax': one PoolManager from which a pool with laxer pool_kwargs (assert_hostname=False and/or cert_reqs=CERT_NONE) was obtained and used before the judged request goes out with the manager's own settings; CA file for one CA plus CA data for the other; TLS-in-TLS with a separately pinned proxy leg (proxy_assert_fingerprint) for every origin-side mode",
     ASSUMPTIONS=COMMON_ASSUMPTIONS + [
         "reference 'demanded checks': chain validation is demanded unless the effective mode is CERT_NONE (cert_reqs if given, else the caller context's verify_mode, else REQUIRED) and passes iff the leaf's issuer is the CA the client was configured with (either of two CAs can be the configured one, so that trust anchors left over from an earlier connection in the same process would show); a pin replaces the hostname check; otherwise a hostname match is demanded unless assert_hostname is False, against assert_hostname / server_hostname / the requested host (brackets, zone and trailing dot removed), judged by the three-valued RFC 6125 reference of C08 with commonName disabled",
         "cert_reqs=CERT_NONE on a caller-supplied context that keeps check_hostname on is a configuration conflict the ssl module rejects with ValueError before any I/O; only 'no bytes sent' is judged there",
@@ -338,12 +338,12 @@ reg(
     LEVEL_TEXT="Runtime monitoring of real TLS handshakes: a loopback origin (directly or inside a CONNECT tunnel) with throw-away CAs records whether the handshake completed and how many application bytes it decrypted; for each lattice point the reference 'demanded checks' predicate says must-reject / must-accept / either, and the monitors judge bytes-at-origin, the surfaced exception class, server-observed socket closure, InsecureRequestWarning and is_verified; both the stdlib ssl and the pyOpenSSL backend (separate shard processes).",
     LEVEL_NOTE="Trusts OpenSSL's chain building and the 40-line demanded-checks predicate (reusing C08's reference matcher); lattice points outside the enumerated factor values are not covered.",
     TECHNIQUE="runtime monitoring with a server-side observer: real handshakes over loopback, two-party byte accounting, three-valued reference for the demanded checks",
-    REQUIRED_MONITORS={"quick": {"lattice_point": 2000, "must_reject": 1000, "must_accept_accepted": 500, "verified_bookkeeping": 500}, "thorough": {"lattice_point": 30000, "must_reject": 15000, "must_accept_accepted": 8000, "verified_bookkeeping": 8000}},
+    REQUIRED_MONITORS={"quick": {"pinned_proxy_tunnel": 10, "lattice_point": 2000, "must_reject": 1000, "must_accept_accepted": 500, "verified_bookkeeping": 500}, "thorough": {"pinned_proxy_tunnel": 10, "lattice_point": 30000, "must_reject": 15000, "must_accept_accepted": 8000, "verified_bookkeeping": 8000}},
 )
 
 reg(
     "C09",
-    RULE="(proxy scheme http/https, destination scheme, use_forwarding_for_https, proxy certificate ok / wrong name / untrusted, origin certificate ok / wrong name / untrusted, CONNECT reply per connection in {200, 403, 407, 502, garbage, EOF}, proxy_headers set, request headers, destination host form incl. IPv4 / bracketed IPv6 / explicit ports, ProxyManager vs proxy_from_url, proxy URL spelling, retries, 1-3 requests to the same or mixed destinations with the server closing the connection after 1-2 requests, announced or silently): the complete truth table x certificate states x replies with 1-3 requests, plus random cases; a case is that tuple; all non-trivial; proxy-leg verification settings for https proxies (proxy_assert_hostname match / other / wrong-name certificate's name / False, proxy_assert_fingerprint right / wrong, proxy_ssl_context with / without the CA, one shared SSLContext object for proxy leg and origin), the origin inside the tunnel presenting the proxy's certificate, redirect chains through the proxy (http->https, https->http, cross-host) with default and empty strip sets",
+    RULE="(proxy scheme http/https, destination scheme, use_forwarding_for_https, proxy certificate ok / wrong name / untrusted, origin certificate ok / wrong name / untrusted, CONNECT reply per connection in {200, 403, 407, 502, garbage, EOF}, proxy_headers set, request headers, destination host form incl. IPv4 / bracketed IPv6 / explicit ports, ProxyManager vs proxy_from_url, proxy URL spelling, retries, 1-3 requests to the same or mixed destinations with the server closing the connection after 1-2 requests, announced or silently): the complete truth table x certificate states x replies with 1-3 requests, plus random cases; a case is that tuple; all non-trivial; proxy-leg verification settings for https proxies (proxy_assert_hostname match / other / wrong-name certificate's name / False, proxy_assert_fingerprint right / wrong, proxy_ssl_context with / without the CA, one shared SSLContext object for proxy leg and origin), the origin inside the tunnel presenting the proxy's certificate, redirect chains through the proxy (http->https, https->http, cross-host) with default and empty strip sets; proxy_ssl_context that trusts nothing next to ca_certs / ca_cert_data for origins; an https destination that is the https proxy's own host:port next to forwarded traffic (recorded finding); a CONNECT reply that is no status line must surface as ProxyError/SSLError like a refusal (recorded finding)",
     ASSUMPTIONS=COMMON_ASSUMPTIONS + [
         "routing reference = the documented table: tunnel iff the destination is https and not (proxy is https and use_forwarding_for_https); with an http proxy the forwarding option has no effect (still tunnels)",
         "exception class: a CONNECT refused with a status must surface as ProxyError or SSLError (possibly as MaxRetryError.reason); a garbage or empty reply to CONNECT is not a refusal and may also surface as ProtocolError — only 'nothing was sent' is judged there; with retries the class is judged on the last attempt",
@@ -356,5 +356,5 @@ reg(
     LEVEL_TEXT="Runtime monitoring with two observers: a recording loopback proxy (plain or TLS) logs every message addressed to it and every plaintext byte it can read; the same listener plays the origin inside CONNECT tunnels (TLS-in-TLS for https proxies) and logs every decrypted byte and request. Each run's logs are judged against the routing truth table, CONNECT target exactness, header confidentiality in both directions, origin-form inside / absolute-form outside the tunnel, SNI inside the tunnel, never-sent-after-refusal/failed-verification with the exception class, and CONNECT-first on every connection that carries tunnelled traffic (re-tunnel after close).",
     LEVEL_NOTE="Trusts the 10-line routing reference and the listener's HTTP/TLS framing (vf/wire.py, ssl.MemoryBIO); proxy behaviours outside the scripted set (slow CONNECT, partial replies, 1xx) are not covered.",
     TECHNIQUE="runtime monitoring with proxy-side and origin-side observers over real sockets and real TLS (incl. TLS-in-TLS); offline check of the two-party logs against the routing table and the confidentiality rule",
-    REQUIRED_MONITORS={"quick": {"proxied_run": 2000, "tunnel_connection": 1000, "forward_connection": 500, "confidentiality": 1500, "origin_form": 400, "refusal_class": 150, "origin_verification_class": 60, "retunnelled_after_close": 30, "inner_sni": 200}, "thorough": {"proxied_run": 30000, "tunnel_connection": 15000, "forward_connection": 8000, "confidentiality": 20000, "origin_form": 6000, "retunnelled_after_close": 500}},
+    REQUIRED_MONITORS={"quick": {"destination_is_the_proxy": 6, "proxied_run": 2000, "tunnel_connection": 1000, "forward_connection": 500, "confidentiality": 1500, "origin_form": 400, "refusal_class": 150, "origin_verification_class": 60, "retunnelled_after_close": 30, "inner_sni": 200}, "thorough": {"destination_is_the_proxy": 6, "proxied_run": 30000, "tunnel_connection": 15000, "forward_connection": 8000, "confidentiality": 20000, "origin_form": 6000, "retunnelled_after_close": 500}},
 )
